@@ -61,7 +61,7 @@ Qed.
    (5063fd7) a cancelled running request is never parked as paused by its release. *)
 Lemma go_online_cancelled c consumed s :
   xpc s = XGoOnline consumed -> rctx s = true ->
-  exec_step c s = Some (s_xpc (XRelease false) s, []).
+  exec_step c s = Some (s_xpc (XRelease false) (s_rq 0 s), []).
 Proof. intros X R. unfold exec_step. rewrite X, R. reflexivity. Qed.
 
 Lemma release_cancelled_terminates p s en :
